@@ -173,8 +173,8 @@ def classify_tree_diff(old_ents, new_ents, plain=True):
     # importer: `R a b` followed by `M a` for a NEW entry at the vacated path: the importer takes the path's
     # file id from the basis inventory, so the modification replaces the renamed entry (both formats)
     renamed_from = {old_ents[f][0] for f, e in new_ents.items()
-                    if f in old_ents and old_ents[f][1] != e[1] and not e[2]}
-    if any(f not in old_ents and not e[2] and e[0] in renamed_from for f, e in new_ents.items()):
+                    if f in old_ents and old_ents[f][1] != e[1] and (not e[2] or not plain)}
+    if any(f not in old_ents and e[0] in renamed_from and (not e[2] or not plain) for f, e in new_ents.items()):
         fams.add("import-new-entry-at-path-vacated-by-rename")
     # plain format: a directory renamed onto the path of a deleted entry consumes that delete without
     # emitting it (the directory itself is not exported), so the deleted entry survives
@@ -192,9 +192,33 @@ def classify_tree_diff(old_ents, new_ents, plain=True):
     return fams
 
 
+def classify_stale_path(by_id, rv):
+    """importer: the text of a renamed file is fetched from its last-changed revision under its CURRENT old
+    path; if a directory above it was renamed since (the file's own entry unchanged), that path does not
+    exist there (NoSuchFile).  Computed from the history: a renamed file whose entry is unchanged since an
+    ancestor revision in which it had another path."""
+    if not rv["parents"]:
+        return set()
+    p0 = rv["parents"][0]
+    old, new = entries_of(by_id[p0]["tree"]), entries_of(rv["tree"])
+    for g, e in new.items():
+        if g in old and not e[2] and e[1] != old[g][1]:
+            for a in c40._anc(by_id, p0):
+                ea = entries_of(by_id[a]["tree"]).get(g)
+                if ea is not None and ea[1] == old[g][1] and ea[3] == old[g][3] and ea[0] != old[g][0]:
+                    return {"import-rename-of-file-below-directory-renamed-earlier"}
+    return set()
+
+
 def classify_rich_import(old_ents, new_ents):
     """rich format: the importer cannot take a change below a directory that the same commit renames
-    (`R a z` followed by `M z/child`: the new path is looked up in the basis inventory)"""
+    (`R a z` followed by `M z/child`: the new path is looked up in the basis inventory); nor two additions
+    below a directory that held no file before (the importer pruned it as empty and now creates it twice)"""
+    for f, e in old_ents.items():
+        if e[2] and f in new_ents and not any(o[0].startswith(e[0] + "/") and not o[2] for o in old_ents.values()):
+            added = [g for g, ge in new_ents.items() if g not in old_ents and ge[0].startswith(new_ents[f][0] + "/")]
+            if len(added) >= 2:
+                return {"rich-import-two-additions-below-a-directory-that-was-empty"}
     for f, e in new_ents.items():
         if e[2] and f in old_ents and old_ents[f][1] != e[1]:            # a directory renamed by its own name / parent
             prefix = e[0] + "/"
@@ -379,7 +403,12 @@ def roundtrip(sc, plain, out):
             case = dict(case0, rev=rid.decode(), parents=[p.decode() for p in rv["parents"]], import_fails=True)
             fams = set(fams_by_rid.get(rid, set()))
             if not plain and rv["parents"]:
-                fams |= classify_rich_import(entries_of(by_id[rv["parents"][0]]["tree"]), entries_of(rv["tree"]))
+                o_, n_ = entries_of(by_id[rv["parents"][0]]["tree"]), entries_of(rv["tree"])
+                fams |= classify_rich_import(o_, n_)
+                fams |= classify_stale_path(by_id, rv)
+                if len(rv["parents"]) > 1 and any(e[2] and f in o_ and o_[f][1] != e[1] for f, e in n_.items()):
+                    # a merge revision that renames a directory relative to its first parent
+                    fams.add("rich-import-directory-rename-in-a-merge-revision")
             fam = sorted(fams)[0] if fams else None
         out["viol"].append((case, "fast-import of the exported %s stream raises %s at commit %s: %s" % (
             fmt, type(e).__name__, rid.decode() if rid else "?", " ".join(str(e).split())[:160]), fam))
